@@ -247,6 +247,7 @@ type serveInfo struct {
 	opaque     []types.Object
 
 	routeAliases []*ast.Ident
+	codeCopies   []*ast.Ident    // locals defined once as <search result>.code (`if failureCode := matched.code; failureCode != 0`)
 	errAliases   []*ast.Ident    // parameters / locals that alias the fetch error
 	errIsCalls   []*ast.CallExpr // errors.Is(<fetch error>, ErrRequestEntityTooLarge)
 }
@@ -297,6 +298,11 @@ func (s *serveInfo) codeZero(st *flow.State) flow.Val {
 	}
 	for _, id := range s.routeAliases {
 		if v := st.Get("eq:" + s.f.Render(id) + "." + s.ro.codeF.Name() + "==0"); v != flow.Unknown {
+			return v
+		}
+	}
+	for _, id := range s.codeCopies {
+		if v := st.Get("eq:" + s.f.Render(id) + "==0"); v != flow.Unknown {
 			return v
 		}
 	}
@@ -493,6 +499,18 @@ func analyzeServe(c *core.Ctx, rule string) *serveInfo {
 		}
 		if s.vf.allPaths(id, false, s.isRouteVar) {
 			s.routeAliases = append(s.routeAliases, id)
+		}
+	}
+	for o, id := range s.vf.ident {
+		if v, ok := o.(*types.Var); !ok || v.IsField() {
+			continue
+		}
+		sel, ok := ast.Unparen(s.vf.singleDef(o)).(*ast.SelectorExpr)
+		if !ok {
+			continue
+		}
+		if sl := f.Info.Selections[sel]; sl != nil && sl.Obj() == types.Object(ro.codeF) && s.vf.allPaths(sel.X, false, s.isRouteVar) {
+			s.codeCopies = append(s.codeCopies, id)
 		}
 	}
 	s.res = muxAnalyzeInl(c, f, flow.Config{
